@@ -39,7 +39,7 @@ CHECKS = {
         ref="DESIGN.md section 3 / C07",
     ),
     "C10": dict(
-        text="Generated-input search over pass HISTORIES: a drawn sequence (1-8 steps, repetitions) of expand_subcircuits / fill_in_let(ov) / expand_macros / fill_in_map is applied to the parsed circuit; after every step the independently extracted meaning must equal the reference meaning (so all orders agree), re-applying the pass must give an == circuit with identical text, generate->parse must succeed with the same meaning, usepulses must survive (alias fill-in is also tried before macro expansion: it may refuse, but an answer must be right); every parser flag combination must equal the explicit composition, through parse_jaqal_string and through parse_jaqal_file.",
+        text="Generated-input search over pass HISTORIES: a drawn sequence (1-8 steps, repetitions) of expand_subcircuits / fill_in_let(ov) / expand_macros / fill_in_map is applied to the parsed circuit; after every step the independently extracted meaning must equal the reference meaning (so all orders agree), re-applying the pass must give an == circuit with identical text, generate->parse must succeed with the same meaning, usepulses must survive (alias fill-in is also tried before macro expansion: it may refuse, but an answer must be right); every parser flag combination must equal the explicit composition, through parse_jaqal_string and through parse_jaqal_file. Template programs whose macros index the fundamental register by a parameter (or index a register parameter) must pass alias fill-in under four routes with unchanged meaning.",
         note=TRUST + "'applicable' for fill_in_map follows its docstring/use in parse_jaqal_string (after let substitution when overrides are given, after macro expansion when macros exist): otherwise the step is skipped; histories are drawn as lists (equivalent to a rule-based state machine whose rules are the four passes; replayable as JSON).",
         tech="property-based testing over operation sequences (model-based: reference meaning as the state invariant) + idempotence/round-trip metamorphic relations",
         ref="DESIGN.md section 3 / C10",
